@@ -23,7 +23,7 @@ def _sortkey(d):
     return json.dumps(d, sort_keys=True)
 
 
-def xcanon(x, ver, native_ver=None):
+def xcanon(x, ver, native_ver=None, binary=False):
     """canonical tree of an object returned by xdis for a file of bytecode version `ver`.
     Tolerances (DESIGN 3.2): py2 `str` may come back as str (valid UTF-8) or bytes;
     py2 unicode as UnicodeForPython3; long as LongTypeForPython3; in py3 files
@@ -63,6 +63,14 @@ def xcanon(x, ver, native_ver=None):
                 return {"t": "str2-unencodable", "v": repr(x)}
         return {"t": "text", "v": cps(x)}
     if t is bytes:
+        if py2file and not binary:
+            # xdis's rule for a Python-2 str outside the binary fields (co_code, co_lnotab): valid UTF-8 comes
+            # back as str, anything else as bytes - a function of the content, never of what preceded it in the stream
+            try:
+                x.decode("utf-8")
+                return {"t": "str2-as-bytes-though-decodable", "v": hx(x)}
+            except UnicodeDecodeError:
+                pass
         return {"t": "str2" if py2file else "bytes", "v": hx(x)}
     if t is tuple:
         return {"t": "tuple", "v": [xcanon(e, ver) for e in x]}
@@ -82,7 +90,7 @@ def xcanon(x, ver, native_ver=None):
             if not hasattr(x, f):
                 d[f] = {"t": "missing"}
             else:
-                d[f] = xcanon(getattr(x, f), ver)
+                d[f] = xcanon(getattr(x, f), ver, binary=f in ("co_code", "co_lnotab"))
         return {"t": "code", "v": d}
     return {"t": "unknown:" + t.__name__, "v": repr(x)[:80]}
 
